@@ -1,9 +1,13 @@
 use crate::PropDef;
 
+pub mod pairs;
+
+pub mod c11;
+pub mod c12;
 pub mod c17;
 pub mod c18;
 pub mod c24;
 
 pub fn all() -> Vec<PropDef> {
-    vec![c17::def(), c18::def(), c24::def()]
+    vec![c11::def(), c12::def(), c17::def(), c18::def(), c24::def()]
 }
